@@ -7,6 +7,7 @@
 use std::env;
 use std::process::exit;
 
+mod c07;
 mod c15;
 mod c20;
 
@@ -19,7 +20,7 @@ pub struct Family {
 }
 
 fn families() -> Vec<Family> {
-    vec![c20::family(), c15::family()]
+    vec![c20::family(), c15::family(), c07::family()]
 }
 
 pub fn hex(b: &[u8]) -> String {
